@@ -29,7 +29,8 @@ CONSTANTS MaxEntries, OpEmit
 
 VARIABLE tab
 
-Fn(ps, nout, meth) == [kind |-> "func", params |-> ps, nout |-> nout, method |-> meth]
+Fn(ps, nout, meth) == [kind |-> "func", params |-> ps, nout |-> nout, method |-> meth, ret |-> "other"]
+BoolFn(ps) == [kind |-> "func", params |-> ps, nout |-> 1, method |-> FALSE, ret |-> "bool"]
 
 (* the members of the harness environment that the tables name *)
 Members ==
@@ -38,6 +39,7 @@ Members ==
    AddAny |-> Fn(<<"any", "any">>, 1, FALSE),
    Cat    |-> Fn(<<"string", "string">>, 1, FALSE),
    MAdd   |-> Fn(<<"int", "int">>, 1, TRUE),              \* a method: the receiver does not count
+   EqI    |-> BoolFn(<<"int", "int">>),                   \* a boolean result: the occurrence may stand under a negation
    Id     |-> Fn(<<"int">>, 1, FALSE),                    \* one parameter
    Var    |-> Fn(<<"variadic">>, 1, FALSE),               \* func(...interface{}): one parameter
    Add3   |-> Fn(<<"int", "int", "int">>, 1, FALSE),      \* three parameters
@@ -63,7 +65,8 @@ ResolveFrom(t, i, op, lt, rt) ==
 Resolve(t, op, lt, rt) == ResolveFrom(t, 1, op, lt, rt)
 
 (* occurrences: source, operator, static operand types *)
-Occ(src, op, l, r) == [src |-> src, op |-> op, l |-> l, r |-> r]
+Occ(src, op, l, r) == [src |-> src, op |-> op, l |-> l, r |-> r, neg |-> FALSE]
+NegOcc(src, op, l, r) == [src |-> src, op |-> op, l |-> l, r |-> r, neg |-> TRUE]     \* the occurrence under `not ( )` / `!( )`
 IJ   == Occ("I + J", "+", "int", "int")
 FG   == Occ("F + G", "+", "float64", "float64")
 ST   == Occ("S + T", "+", "string", "string")
@@ -71,11 +74,15 @@ IF_  == Occ("I + F", "+", "int", "float64")
 IeJ  == Occ("I == J", "==", "int", "int")
 SeT  == Occ("S == T", "==", "string", "string")
 ImJ  == Occ("I - J", "-", "int", "int")          \* an operator no table names
+NIeJ == NegOcc("not (I == J)", "==", "int", "int")
+BIeJ == NegOcc("!(I == J)", "==", "int", "int")
+NSeT == NegOcc("not (S == T)", "==", "string", "string")
 (* expressions: one occurrence, or several side by side in an array literal - each occurrence is resolved *)
 (* on its own, whatever the operators and operand types of the occurrences walked before it              *)
 ExprSeq ==
   <<<<IJ>>, <<FG>>, <<ST>>, <<IF_>>, <<IeJ>>, <<SeT>>, <<ImJ>>,
-    <<IeJ, IJ>>, <<IJ, IeJ>>, <<SeT, ST>>, <<ImJ, IJ, IeJ>>, <<FG, IJ, ST>>>>
+    <<IeJ, IJ>>, <<IJ, IeJ>>, <<SeT, ST>>, <<ImJ, IJ, IeJ>>, <<FG, IJ, ST>>,
+    <<NIeJ>>, <<BIeJ>>, <<NSeT>>, <<NIeJ, IeJ>>>>
 Exprs == UNION {{ExprSeq[i][k] : k \in 1..Len(ExprSeq[i])} : i \in 1..Len(ExprSeq)}
 
 Init == tab = <<>>
@@ -99,6 +106,9 @@ TableCase ==
    exprs |-> [i \in 1..Len(ExprSeq) |->
                [occs |-> [k \in 1..Len(ExprSeq[i]) |->
                             LET e == ExprSeq[i][k]
-                            IN [src |-> e.src, fn |-> IF Valid(tab) THEN Resolve(tab, e.op, e.l, e.r) ELSE ""]]]]]
+                                fn == IF Valid(tab) THEN Resolve(tab, e.op, e.l, e.r) ELSE ""
+                            \* (a negated occurrence is well-typed only if what it resolves to yields a boolean)
+                            IN [src |-> e.src, fn |-> fn, neg |-> e.neg,
+                                illtyped |-> e.neg /\ fn # "" /\ Members[fn].ret # "bool"]]]]]
 EmitTable == (Len(tab) >= 1 /\ OpEmit = "cases") => PrintT(ToJson(TableCase))
 =============================================================================
